@@ -1,10 +1,15 @@
 (* C13: outcomes do not depend on whether collateral is native or cw20.  Statements only.
    Proved so far (the full two-world simulation was refuted for reversals until fix 4c6978e, and is still
    refuted when a native payout needs an insurance-fund draw, see known_findings):
-   the single builder that depends on the collateral kind, and for the open/increase path that a
-   native call is accepted only with exactly the amount a cw20 deployment pulls. *)
+   the single builder that depends on the collateral kind; for the open/increase path that a
+   native call is accepted only with exactly the amount a cw20 deployment pulls; and, at transaction level,
+   that twin deployments which both carry out a DepositMargin, WithdrawMargin, whole ClosePosition, full or
+   partial Liquidate end with the same stored position and the same wallets for the caller (the native call
+   attaching what the cw20 deployment pulls).  Not proved: that the native call succeeds whenever the cw20
+   one does (false when a payout needs an insurance-fund draw, known finding), and the two-world statement
+   for OpenPosition on an existing position. *)
 From MP.Model Require Import Prelude U128 SInt Feed Vamm VammOps Token World Engine Runtime.
-From MP.Proofs Require Import Tactics SIntFacts TwinFacts.
+From MP.Proofs Require Import Tactics SIntFacts EngineArith CloseFacts MirrorFacts CloseTxFacts TwinFacts TwinTxFacts.
 From MP.Model Require Import Scenario.
 
 Theorem C13_only_transfer_from_differs : forall w owner receiver amt,
@@ -28,6 +33,111 @@ Theorem C13_increase_native_needs_cw20_pull_partial : forall w i o w' subs swap 
     sf_amount funds = sf_required funds + ts_open_notional swap * e_dec (ec (w_eng w)) / ts_leverage swap + spread + toll.
 Proof. exact increase_native_exact_funds. Qed.
 Print Assumptions C13_increase_native_needs_cw20_pull_partial.
+
+(* twin deployments: same engine, vAMM, fund state and ledger; one on native collateral, one on cw20 *)
+Theorem C13_twin_deposit : forall fc fn wc wn t v amount fundsn wc' wn',
+  twin wc wn ->
+  exec_op fc wc (OEngine t (EDepositMargin v amount) 0) = Ok wc' ->
+  exec_op fn wn (OEngine t (EDepositMargin v amount) fundsn) = Ok wn' ->
+  t <> A_ENGINE -> t <> A_IFUND -> t <> if_engine (w_if wc) ->
+  find_position (w_eng wc') v t = find_position (w_eng wn') v t /\
+  bal (w_tok wc') t = bal (w_tok wn') t.
+Proof. exact twin_deposit. Qed.
+Print Assumptions C13_twin_deposit.
+
+Theorem C13_twin_withdraw : forall fc fn wc wn t v amount wc' wn',
+  twin wc wn ->
+  exec_op fc wc (OEngine t (EWithdrawMargin v amount) 0) = Ok wc' ->
+  exec_op fn wn (OEngine t (EWithdrawMargin v amount) 0) = Ok wn' ->
+  let p := read_position (w_eng wc) v t in
+  pos_wf p -> cpf_wf (w_eng wc) v -> 0 < e_dec (ec (w_eng wc)) -> 0 <= amount ->
+  t <> A_ENGINE -> t <> A_IFUND -> t <> if_engine (w_if wc) ->
+  bal (w_tok wc') t = bal (w_tok wn') t /\
+  exists pc pn, find_position (w_eng wc') v t = Some pc /\ find_position (w_eng wn') v t = Some pn /\
+    p_margin pc = p_margin pn /\ p_size pc = p_size pn /\ p_notional pc = p_notional pn /\ p_lupf pc = p_lupf pn.
+Proof. exact twin_withdraw. Qed.
+Print Assumptions C13_twin_withdraw.
+
+(* whole close: the native wallet plus what was attached equals the cw20 wallet plus the fees it was charged; with
+   exactly the fees attached the two wallets are equal *)
+Theorem C13_twin_close : forall fc fn wc wn t v lim fundsn wc' wn',
+  twin wc wn ->
+  exec_op fc wc (OEngine t (EClosePosition v lim) 0) = Ok wc' ->
+  exec_op fn wn (OEngine t (EClosePosition v lim) fundsn) = Ok wn' ->
+  let p := read_position (w_eng wc) v t in
+  pos_wf p -> cpf_wf (w_eng wc) v -> 0 < e_dec (ec (w_eng wc)) ->
+  t <> A_ENGINE -> t <> A_IFUND -> t <> if_engine (w_if wc) ->
+  t <> e_ifund (ec (w_eng wc)) -> t <> e_feepool (ec (w_eng wc)) ->
+  find_position (w_eng wc') v t = None -> find_position (w_eng wn') v t = None ->
+  exists vm, get_vamm wc v = Ok vm /\
+    bal (w_tok wn') t + fundsn =
+    bal (w_tok wc') t + fee_of vm (p_notional p) (v_spread (vc vm)) + fee_of vm (p_notional p) (v_toll (vc vm)).
+Proof. exact twin_close. Qed.
+Print Assumptions C13_twin_close.
+
+Theorem C13_twin_liquidate_full : forall fc fn wc wn s v t lim wc' wn',
+  twin wc wn ->
+  exec_op fc wc (OEngine s (ELiquidate v t lim) 0) = Ok wc' ->
+  exec_op fn wn (OEngine s (ELiquidate v t lim) 0) = Ok wn' ->
+  0 < e_dec (ec (w_eng wc)) -> 0 <= e_liqfee (ec (w_eng wc)) ->
+  s <> A_ENGINE -> s <> A_IFUND -> s <> if_engine (w_if wc) -> s <> e_ifund (ec (w_eng wc)) ->
+  find_position (w_eng wc') v t = None -> find_position (w_eng wn') v t = None ->
+  bal (w_tok wc') s = bal (w_tok wn') s /\
+  (t <> s -> t <> A_ENGINE -> t <> A_IFUND -> t <> if_engine (w_if wc) -> t <> e_ifund (ec (w_eng wc)) ->
+     bal (w_tok wc') t = bal (w_tok wn') t).
+Proof. exact twin_liquidate_full. Qed.
+Print Assumptions C13_twin_liquidate_full.
+
+Theorem C13_twin_liquidate_partial : forall fc fn wc wn s v t lim wc' wn',
+  twin wc wn ->
+  exec_op fc wc (OEngine s (ELiquidate v t lim) 0) = Ok wc' ->
+  exec_op fn wn (OEngine s (ELiquidate v t lim) 0) = Ok wn' ->
+  let p := read_position (w_eng wc) v t in let c := ec (w_eng wc) in
+  coherent p -> 0 <= e_plr c -> 0 < e_dec c ->
+  s <> A_ENGINE -> s <> A_IFUND -> s <> if_engine (w_if wc) -> s <> e_ifund c ->
+  (exists p1, find_position (w_eng wc') v t = Some p1) -> (exists p1, find_position (w_eng wn') v t = Some p1) ->
+  bal (w_tok wc') s = bal (w_tok wn') s /\
+  exists pc pn, find_position (w_eng wc') v t = Some pc /\ find_position (w_eng wn') v t = Some pn /\
+    toZ (p_size pc) = toZ (p_size pn) /\ p_dir pc = p_dir pn.
+Proof. exact twin_liquidate_partial. Qed.
+Print Assumptions C13_twin_liquidate_partial.
+
+Theorem C13_twin_open_new : forall fc fn wc wn t v s m l lim fundsn wc' wn' vm,
+  twin wc wn ->
+  exec_op fc wc (OEngine t (EOpenPosition v s m l lim) 0) = Ok wc' ->
+  exec_op fn wn (OEngine t (EOpenPosition v s m l lim) fundsn) = Ok wn' ->
+  find_position (w_eng wc) v t = None -> get_vamm wc v = Ok vm -> 0 <= m -> 0 <= l -> 0 < e_dec (ec (w_eng wc)) ->
+  wf0 (v_total (vs vm)) ->
+  let ifund := e_ifund (ec (w_eng wc)) in let pool := e_feepool (ec (w_eng wc)) in
+  ifund <> pool -> ifund <> A_ENGINE -> pool <> A_ENGINE -> t <> ifund -> t <> pool ->
+  bal (w_tok wc') ifund = bal (w_tok wn') ifund /\ bal (w_tok wc') pool = bal (w_tok wn') pool /\
+  exists pc pn, find_position (w_eng wc') v t = Some pc /\ find_position (w_eng wn') v t = Some pn /\
+    toZ (p_size pc) = toZ (p_size pn).
+Proof. exact twin_open_new. Qed.
+Print Assumptions C13_twin_open_new.
+
+(* non-vacuity: the cw20 and the native scenario are twins as far as the relation can be computed (engine, vAMMs,
+   fund, environment, the balances of every account of the scenario), and both carry out a whole close - the native
+   one with exactly the fees attached - ending with equal wallets *)
+Definition c13_twin_close_example : bool :=
+  match scenario, scenario_native with
+  | Ok wc, Ok wn =>
+      negb (t_native (w_tok wc)) && t_native (w_tok wn) &&
+      forallb (fun a => bal (w_tok wc) a =? bal (w_tok wn) a) [1; 2; 3; 4; 21; 22; 23; 31] &&
+      match get_vamm wc 11 with
+      | Ok vm =>
+          let p := read_position (w_eng wc) 11 21 in
+          let fees := fee_of vm (p_notional p) (v_spread (vc vm)) + fee_of vm (p_notional p) (v_toll (vc vm)) in
+          match exec_op (-1) wc (OEngine 21 (EClosePosition 11 0) 0), exec_op (-1) wn (OEngine 21 (EClosePosition 11 0) fees) with
+          | Ok wc', Ok wn' => (bal (w_tok wc') 21 =? bal (w_tok wn') 21) && negb (bal (w_tok wc') 21 =? bal (w_tok wc) 21)
+          | _, _ => false
+          end
+      | Err _ => false
+      end
+  | _, _ => false
+  end.
+Example C13_twin_close_nonvacuous : c13_twin_close_example = true.
+Proof. vm_compute. reflexivity. Qed.
 
 (* FIXED FINDING (reverse_required_funds, fix 4c6978e in /repo): before the fix the native engine demanded the whole
    margin of the re-opened position (6058939 in this scenario) instead of that margin net of the equity the
